@@ -298,6 +298,7 @@ struct World
   // before every operation (thread-per-request); replacement only while its active-span stack is empty
   int life[8];
   bool hold[8];
+  bool recycle = true;   // off where the id generator is the harness' own counter (replay with idgen=counter)
 
   World(uint64_t s, bool rnd) : seed(s), random_ids(rnd), rng(s * 0x9E3779B97F4A7C15ull + 12345)
   {
@@ -317,7 +318,7 @@ struct World
   }
   void maybe_recycle(int t)
   {
-    if (t <= 0 || t >= 8 || !scopes[(size_t)t].empty())
+    if (!recycle || t <= 0 || t >= 8 || !scopes[(size_t)t].empty())
       return;
     if (hold[t])
     {
@@ -632,6 +633,7 @@ static bool run_behaviour(const json &steps, uint64_t seed, bool random_ids, Pro
                           long &nstarts)
 {
   World w(seed, random_ids);
+  w.recycle   = random_ids;
   bool ok     = true;
   size_t nthr = 1;
   size_t j    = 0;
@@ -980,14 +982,21 @@ struct Ranks
   int span(const api::SpanId &t) { return of("S" + hx(t), !t.IsValid()); }
 };
 
-static int cmd_record(long nprog, uint64_t seed, int nthr, int maxops)
+// ids are ranked by first appearance over the WHOLE recorder run (all programs, all threads and thread
+// generations, forked children): the trace spec demands that a fresh id outranks everything seen before
+static int cmd_record(long nprog, uint64_t seed, int nthr, int maxops, bool random_ids, bool with_fork)
 {
+  Ranks rk;
+  uint64_t gen_n  = 1000 + seed % 1000;   // the counting generator keeps counting across programs
+  long nforks     = 0;
   for (long pi = 0; pi < nprog; ++pi)
   {
-    World w(seed * 7919 + (uint64_t)pi, false);
-    Ranks rk;
+    World w(seed * 7919 + (uint64_t)pi, random_ids);
+    w.gen.n   = gen_n;
+    w.gen.tag = 0x5a;
     std::mt19937_64 &g = w.rng;
     std::cout << "{\"e\":\"Cfg\",\"prog\":" << pi << "}\n";
+    int forks_here = 0;
     int nops = 30 + (int)(g() % (uint64_t)(maxops - 29));
     int nremote = 0;
     auto tsid = [&](const std::string &h) {
@@ -1008,6 +1017,7 @@ static int cmd_record(long nprog, uint64_t seed, int nthr, int maxops)
     };
     auto do_end = [&](int t, size_t e) {
       Entity &en = w.ents[e];
+      w.maybe_recycle(t);
       run_on(t, [&] { en.span->End(); });
       en.ended       = true;
       std::string sp = hx(en.ctx.span_id());
@@ -1060,6 +1070,8 @@ static int cmd_record(long nprog, uint64_t seed, int nthr, int maxops)
       else if (r < 50)
       {
         std::string s = ALL_SAMPLERS[g() % 16];
+        if (random_ids && s == "rmid")   // the 0.5-ratio decision depends on the id: only with the counting generator
+          s = "pb_on";
         json m;
         uint64_t mr = g() % 100;
         size_t ne   = w.ents.size();
@@ -1077,6 +1089,7 @@ static int cmd_record(long nprog, uint64_t seed, int nthr, int maxops)
         api::StartSpanOptions opt;
         make_options(w, m, opt);
         Entity en;
+        w.maybe_recycle(t);
         run_on(t, [&] { en.span = tracer->StartSpan("s", opt); });
         en.ctx = en.span->GetContext();
         json got{{"trace", rk.trace(en.ctx.trace_id())},
@@ -1094,6 +1107,95 @@ static int cmd_record(long nprog, uint64_t seed, int nthr, int maxops)
       else if (r < 70)
       {
         size_t e = g() % w.ents.size();
+        if (with_fork && forks_here < 2 && g() % 6 == 0)
+        {
+          // fork() on the OS thread of model thread t: the child starts a root span and a child span and
+          // reports their contexts; the parent logs them as ordinary StartSpan events (explicit root-marked
+          // Context, then explicit SpanContext of that root) and keeps wrappers of the contexts as entities.
+          // The parent's next operation on t stays on the SAME OS thread (its engine state was copied).
+          ++forks_here;
+          ++nforks;
+          auto tracer = w.provider("on")->GetTracer("c05rec");
+          std::vector<json> forked_events;
+          int fd[2];
+          if (pipe(fd) != 0)
+            return 2;
+          std::cout.flush();
+          run_on(t, [&] {
+            pid_t pid = fork();
+            if (pid == 0)
+            {
+              close(fd[0]);
+              ctxns::Context c;
+              c = c.SetValue(api::kIsRootSpanKey, true);
+              api::StartSpanOptions o;
+              o.parent  = c;
+              auto root = tracer->StartSpan("forked-root", o);
+              api::StartSpanOptions o2;
+              o2.parent = root->GetContext();
+              auto kid  = tracer->StartSpan("forked-child", o2);
+              json out  = json::array();
+              for (auto *sp : {&root, &kid})
+              {
+                json x     = ctx_json((*sp)->GetContext());
+                x["rec"]   = (*sp)->IsRecording();
+                uint8_t tb[16], sb[8];
+                (*sp)->GetContext().trace_id().CopyBytesTo(tb);
+                (*sp)->GetContext().span_id().CopyBytesTo(sb);
+                out.push_back(x);
+              }
+              std::string o3 = out.dump();
+              (void)!write(fd[1], o3.data(), o3.size());
+              close(fd[1]);
+              _exit(0);
+            }
+            close(fd[1]);
+            std::string buf;
+            char tmp[4096];
+            ssize_t r2;
+            while ((r2 = read(fd[0], tmp, sizeof tmp)) > 0)
+              buf.append(tmp, (size_t)r2);
+            close(fd[0]);
+            int status = 0;
+            waitpid(pid, &status, 0);
+            json arr = json::parse(buf, nullptr, false);
+            size_t root_e = 0;
+            for (size_t i = 0; arr.is_array() && i < arr.size(); ++i)
+            {
+              const json &x = arr[i];
+              auto unhex    = [](const std::string &h, uint8_t *out2) {
+                for (size_t k = 0; k < h.size() / 2; ++k)
+                  out2[k] = (uint8_t)std::stoi(h.substr(2 * k, 2), nullptr, 16);
+              };
+              uint8_t tb[16], sb[8];
+              unhex(x["trace"], tb);
+              unhex(x["span"], sb);
+              Entity en;
+              en.ctx    = api::SpanContext(api::TraceId(tb), api::SpanId(sb), api::TraceFlags((uint8_t)x["flags"].get<int>()),
+                                           false, api::TraceState::FromHeader(std::string(x["ts"])));
+              en.span   = nostd::shared_ptr<api::Span>(new api::DefaultSpan(en.ctx));
+              en.remote = true;   // never ended by the program (the real span lived in the child)
+              json got{{"trace", rk.trace(en.ctx.trace_id())}, {"span", rk.span(en.ctx.span_id())},
+                       {"flags", x["flags"]}, {"ts", tsid(x["ts"])}, {"rec", x["rec"]}, {"valid", x["valid"]},
+                       {"remote", x["remote"]}};
+              json m = i == 0 ? json{{"type", "ctx"}, {"e", 0}, {"root", true}}
+                              : json{{"type", "sc"}, {"e", root_e}, {"root", false}};
+              w.ents.push_back(en);
+              if (i == 0)
+                root_e = w.ents.size();
+              json ev{{"e", "start"}, {"t", t}, {"s", "on"}, {"m", m}, {"tcls", "lo"}, {"got", got}, {"forked", true}};
+              forked_events.push_back(ev);
+            }
+          });
+          for (auto &ev : forked_events)
+          {
+            ev["cur"] = cur();
+            std::cout << ev.dump() << "\n";
+          }
+          w.hold[t] = true;
+          continue;
+        }
+        w.maybe_recycle(t);
         run_on(t, [&] { w.scopes[(size_t)t].emplace_back(new api::Scope(w.ents[e].span)); });
         json ev{{"e", "with"}, {"t", t}, {"en", e + 1}};
         ev["cur"] = cur();
@@ -1127,16 +1229,23 @@ static int cmd_record(long nprog, uint64_t seed, int nthr, int maxops)
         });
     w.ents.clear();
     w.providers.clear();
+    gen_n = w.gen.n;
   }
   std::cout.flush();
   stop_workers();
+  std::cerr << "record-summary os_threads_created=" << g_thread_generations << " os_threads_finished=" << g_threads_retired
+            << " forks=" << nforks << " distinct_ids=" << rk.next - 1 << std::endl;
   return 0;
 }
 
 int main(int argc, char **argv)
 {
   if (argc >= 6 && std::string(argv[1]) == "record")
-    return cmd_record(std::stol(argv[2]), std::stoull(argv[3]), std::stoi(argv[4]), std::stoi(argv[5]));
+  {
+    bool rnd = argc >= 7 && std::string(argv[6]) == "random";
+    return cmd_record(std::stol(argv[2]), std::stoull(argv[3]), std::stoi(argv[4]), std::stoi(argv[5]), rnd,
+                      rnd && argc >= 8 && std::string(argv[7]) == "fork");
+  }
   if (argc >= 5 && std::string(argv[1]) == "replay")
     return cmd_replay(argv[2], std::stoull(argv[3]), std::string(argv[4]) == "random", argc >= 6);
   if (argc >= 4 && std::string(argv[1]) == "fork")
